@@ -7,15 +7,30 @@
 #      the input and the real `list` must allow at least the reported connections between the workload and that pod.
 import copy, json
 from . import c01
-from .lib import core, gen, listcorr, xpo
+from .lib import core, gen, listcorr, xpo, fmt
 
 NEWNS = 'nsprobe'
 
 
-def gen_case(r, big=False):
+MOTIFS = {'twice': 0.1, 'mixed': 0.3, 'lonely': 0.45, 'refine': 0.6, 'hole': 0.75, 'nsexpr': 0.82, 'keys': 0.87, 'alias': 0.91, 'crossdir': 0.94, 'iponly': 0.97}
+WEIGHTS = [('twice', 2), ('mixed', 2), ('lonely', 1), ('refine', 3), ('hole', 1), ('nsexpr', 1), ('keys', 1), ('alias', 2), ('crossdir', 1), ('iponly', 1), ('none', 1)]
+
+
+def gen_case(r, big=False, motif=None):
     W = gen.gen_world(r, anp=False, big=big)
-    x = r.random()
+    if motif is None:
+        motif = r.choice([m for m, k in WEIGHTS for _ in range(k)])
+    if motif == 'none':
+        return W
+    x = MOTIFS[motif]
     wl = r.choice(W['workloads'])
+    if motif == 'alias':
+        # prefer a namespace with two workloads
+        multi = [w_ for w_ in W['workloads'] if sum(1 for q in W['workloads'] if q['ns'] == w_['ns']) >= 2]
+        if multi:
+            wl = r.choice(multi)
+        else:
+            W['workloads'].append({'kind': 'Deployment', 'ns': wl['ns'], 'name': 'wextra', 'labels': {'app': 'extra'}, 'ports': [], 'replicas': 1, 'owner': None, 'omit_ns': False})
     if x < 0.2:
         # the same peer set named twice: by the policy's own namespace (no namespaceSelector) and by its name label
         d = r.choice(['ingress', 'egress'])
@@ -89,6 +104,21 @@ def gen_case(r, big=False):
         W['netpols'].append({'ns': wl['ns'], 'name': 'keys', 'podSelector': {}, 'policyTypes': ['Ingress'],
                              'ingress': [{'from': [{'podSelector': {'matchLabels': {'app': 'ab', 'c': 'd'}}}], 'ports': [{'port': 80}]},
                                          {'from': [{'podSelector': {'matchLabels': {'app': 'a', 'bc': 'd'}}}], 'ports': [{'port': 81}]}]})
+    elif x < 0.93 and len([w_ for w_ in W['workloads'] if w_['ns'] == wl['ns']]) >= 2:
+        # two policies open ports to the whole cluster: one selects every workload of the namespace, the other only one of them - what
+        # the second adds for that workload must not show up at the others (the pre-scanned sets are per policy, the result per workload)
+        d = r.choice(['ingress', 'egress', 'egress'])
+        key = 'from' if d == 'ingress' else 'to'
+        pt = ['Ingress' if d == 'ingress' else 'Egress']
+        if not wl['labels']:
+            wl['labels'] = {'app': 'only'}
+        for w_ in W['workloads']:
+            if w_ is not wl and w_['ns'] == wl['ns'] and all(w_['labels'].get(k_) == v_ for k_, v_ in wl['labels'].items()):
+                w_['labels'] = {'app': 'other'}
+        W['netpols'] = [p_ for p_ in W['netpols'] if (p_['ns'] or 'default') != wl['ns']]
+        W['netpols'].append({'ns': wl['ns'], 'name': 'wide-all', 'podSelector': {}, 'policyTypes': pt, d: [{key: [{'namespaceSelector': {}}], 'ports': [{'protocol': 'TCP', 'port': 80}]}]})
+        W['netpols'].append({'ns': wl['ns'], 'name': 'wide-one', 'podSelector': {'matchLabels': dict(wl['labels'])}, 'policyTypes': pt,
+                             d: [{key: [{'namespaceSelector': {}}], 'ports': [{'protocol': 'TCP', 'port': 443}]}]})
     elif x < 0.95:
         # one policy for both directions: everything (or the whole cluster) allowed in one direction, specific peers and ports in
         # the other - the pre-scan flags of one direction must not short-cut the other
@@ -225,6 +255,16 @@ def main(tier):
                         run.report(None, 'base-%d' % cid, dict(payload, with_exposure=ox['conns'], without=ob['conns']), 'list --exposure reports other workload/IP connectivity than list')
                         continue
                 if ox['outcome'] != 'ok':
+                    continue
+                # what is printed is what was computed (the realizability below is about the computed entries): the exposure section of the
+                # default output, read back, holds exactly the entries of ExposedPeers()
+                try:
+                    printed = fmt.parse_exposure_txt(ox.get('out', ''))
+                except Exception as ex:
+                    printed = ('unparsable', str(ex))
+                if printed != fmt.api_exposure_rows(ox):
+                    run.report(None, 'printed-%d' % cid, dict(payload, output=ox.get('out'), exposure=ox.get('exposure'), parsed=printed[0] if isinstance(printed[0], list) else printed),
+                               'the exposure section printed by list --exposure does not hold exactly the computed exposure entries')
                     continue
                 nent = sum(len([e for e in x[d] if not e['cluster']]) for x in (ox.get('exposure') or []) for d in ('ingress', 'egress'))
                 run.dist('entries:%d' % min(nent, 5))
